@@ -88,17 +88,18 @@ def tree_obs(tree):
             if kind == "file":
                 c, t = tc.untag(tree.get_file_text(path))
                 x = bool(tree.is_executable(path))
-            out.append({"path": path.split("/"), "kind": kind or "none", "c": c, "t": t, "x": x, "ver": True})
+            out.append({"path": path.split("/"), "kind": kind or "missing", "c": c, "t": t, "x": x, "ver": True})
     return sorted(out, key=lambda e: e["path"])
 
 
 def site(exc):
-    """innermost breezy frame of an exception: 'file.py:function'"""
+    """where an exception came from: '<resolver>/' (if inside a conflict resolver) + innermost breezy 'file.py:function'"""
     fr = [f for f in traceback.extract_tb(exc.__traceback__) if "/breezy/" in f.filename]
     if not fr:
         return "?"
     f = fr[-1]
-    return "%s:%s" % (f.filename.split("/breezy/")[-1], f.name)
+    res = next((x.name for x in fr if x.name.startswith("resolve_") and x.name != "resolve_conflicts"), None)
+    return "%s%s:%s" % (res + "/" if res else "", f.filename.split("/breezy/")[-1], f.name)
 
 
 def call(tt, tid, fl, o, serial):
@@ -231,24 +232,39 @@ def replay_chunk(sub, chunk):
 CASES, BASES = [], {}
 
 
+def diff_class(r):
+    """how the preview differs from the applied tree (files; directories too for bzr)"""
+    def idx(entries):
+        return {"/".join(e["path"]): e for e in entries}
+    pv, ap = idx(r["preview_tree"]), idx(r["applied_tree"])
+    if any(e["kind"] == "missing" for e in ap.values()):
+        return "applied-tree-versions-missing-paths"
+    both = set(pv) & set(ap)
+    if any((pv[p]["c"], pv[p]["t"]) != (ap[p]["c"], ap[p]["t"]) for p in both):
+        return "content"
+    if any(pv[p]["kind"] != ap[p]["kind"] for p in both):
+        return "kind"
+    if any(pv[p]["x"] != ap[p]["x"] for p in both):
+        return "executable-bit"
+    return "versioned-paths"
+
+
 def classify(row, failed):
-    """root-cause class of a violation: failing clause : code site : input class (no concrete ids)"""
-    r = row["impl"]
-    kinds = "+".join(k.replace(" ", "-") for k in r["raw"]) or "conflict-free"
+    """root-cause class of a violation: failing clause : code site : shape (no concrete ids, no input enumeration)"""
+    r, fl = row["impl"], row["fl"]
     if "clean_or_malformed" in failed:
-        return "resolve-raises-%s:%s:%s" % (r["resolve"].split(":")[1], r["sites"].get("resolve", "?"), kinds)
+        return "resolve-raises-%s:%s" % (r["resolve"].split(":")[1], r["sites"].get("resolve", "?"))
     if "terminates" in failed:
-        return "resolve-does-not-terminate:%s" % kinds
-    if "preview_readable" in failed:
-        return "preview-raises-%s:%s:%s" % (r["preview"].split(":")[1], r["sites"].get("preview", "?"),
-                                             "after-resolve:" + kinds if r["resolve"] == "clean" else kinds)
+        return "resolve-does-not-terminate:%s" % fl
     if "applies_cleanly" in failed:
         return "apply-raises-%s:%s:%s" % (r["apply"].split(":")[1], r["sites"].get("apply", "?"),
-                                           "after-resolve:" + kinds if r["resolve"] == "clean" else kinds)
+                                          "tree-changed" if not r["unchanged"] else "tree-unchanged")
     if "atomic" in failed:
-        return "tree-changed-without-apply:%s:%s" % (r["resolve"], kinds)
+        return "tree-changed-without-apply:%s:%s" % (fl, r["resolve"])
+    if "preview_readable" in failed:
+        return "preview-raises-%s:%s" % (r["preview"].split(":")[1], r["sites"].get("preview", "?"))
     if "preview_eq_applied" in failed:
-        return "preview-differs-from-applied:%s" % ("after-resolve:" + kinds if r["resolve"] == "clean" else kinds)
+        return "preview-differs-from-applied:%s:%s" % (fl, diff_class(r))
     if "builds" in failed:
         return "builder-call-raises:%s:%s" % (r["build"], r["sites"].get("build", "?"))
     return "+".join(sorted(failed))
@@ -268,7 +284,7 @@ def run(ctx):
     if missing:
         ctx.machinery("conflict families never produced by the enumeration: %s" % missing)
     n_a = len(CASES)
-    if not ctx.quick:
+    if not ctx.quick and os.environ.get("VF_C14_ORDERS", "AB") == "AB":
         CASES = CASES + enumerate_transforms(ctx, maxops, "B")
     for fl in tc.FLAVOURS:
         BASES[fl] = tc.make_base(ctx.workdir, fl, TREE)
